@@ -12,7 +12,7 @@ def parseNats : List String → Option (List Nat × List String)
     let xs ← (ts.take n).mapM (·.toNat?)
     pure (xs, ts.drop n)
 
-partial def parseBm : Nat → List String → Option (BmTable × List String)
+partial def parseBm : Nat → List String → Option (BkTable × List String)
   | 0, ts => some ([], ts)
   | k+1, ts =>
     match ts with
@@ -47,7 +47,7 @@ def parseDoc (ts : List String) : Option (Doc × List String) :=
 def showNats (xs : List Nat) : String :=
   toString xs.length ++ String.join (xs.map fun x => " " ++ toString x)
 
-def showBm (t : BmTable) : String :=
+def showBm (t : BkTable) : String :=
   toString t.length ++ String.join (t.map fun (id, b) =>
     " " ++ toString id ++ " " ++ toString b.page.1 ++ " " ++ toString b.page.2 ++ " " ++ showNats b.children)
 
